@@ -8,7 +8,7 @@ from vlib import rules
 
 
 def r3_option_map_path(path):
-    """path: e.g. 'self.return_value'; applied where it occurs, LostAnchor if the named fn has no such site"""
+    """path: e.g. 'self.return_value'; applied where it occurs (a function without the pattern is left alone and judged by its contract)"""
     parts = path.split('.')
     want = []
     for i, p in enumerate(parts):
@@ -28,5 +28,5 @@ def r3_option_map_path(path):
                 new = 'match %s { Some(%s) => Some(%s), None => None }' % (path, param, rules._as_block(body))
                 u.rules['R3'] += 1
                 return text[:t.start] + new + text[toks[mclose].end:]
-        raise LostAnchor('%s: rule R3 found no `%s.map(|..| ..)`' % (key, path))
+        return text
     return rule
